@@ -19,10 +19,11 @@ static int run(int scan_kind, const char* what) {
     {
         cds::gc::HP hp(4, 2, 8, scan_kind == 0 ? cds::gc::HP::scan_type::classic : cds::gc::HP::scan_type::inplace);
         cds::threading::Manager::attachThread();
-        static const uintptr_t addrs[] = { 0x1000, 0x2000, 0x3000, 0x1001, 0x2003 };
-        for (unsigned a = 0; a < 5 && !found; ++a) for (unsigned b = 0; b < 5 && !found; ++b) for (unsigned c = 0; c < 6 && !found; ++c)
+        static const uintptr_t addrs[] = { 0x1000, 0x2000, 0x3000, 0x1001, 0x2003, 0x100002000ull, 0x300000040ull };   // near, odd, and > 4 GiB apart
+        const unsigned NA = 7;
+        for (unsigned a = 0; a < NA && !found; ++a) for (unsigned b = 0; b < NA && !found; ++b) for (unsigned c = 0; c <= NA && !found; ++c)
         for (unsigned mask = 0; mask < 8 && !found; ++mask) {
-            std::vector<void*> objs; objs.push_back((void*)addrs[a]); if (b != a) objs.push_back((void*)addrs[b]); if (c < 5 && c != a && c != b) objs.push_back((void*)addrs[c]);
+            std::vector<void*> objs; objs.push_back((void*)addrs[a]); if (b != a) objs.push_back((void*)addrs[b]); if (c < NA && c != a && c != b) objs.push_back((void*)addrs[c]);
             disposed.clear();
             cds::gc::HP::Guard g[3];
             for (size_t i = 0; i < objs.size(); ++i) if (mask & (1u << i)) g[i].assign(objs[i]);
